@@ -77,7 +77,7 @@ func runScenario(sc scenario) (msg string, nlines int, nwrites int) {
 		_ = os.WriteFile(d.outPath, nil, 0o644)
 		close(readerDone)
 	}
-	if err := d.start(true); err != nil {
+	if err := d.start(!noTrace); err != nil {
 		return "inconclusive: cannot start strace: " + err.Error(), 0, 0
 	}
 	defer d.kill()
@@ -149,8 +149,13 @@ func runScenario(sc scenario) (msg string, nlines int, nwrites int) {
 	nlines = len(lines)
 	// --- every line is one complete JSON event; multiset as expected; causal order
 	loginAt := map[string]int{}
+	loginIdentity := map[string]string{}
 	actions := map[string]int{}
 	seen := map[string]int{}
+	ident := func(e *auditevent.AuditEvent) string {
+		b, _ := json.Marshal(map[string]any{"subjects": e.Subjects, "source": e.Source, "target": e.Target})
+		return string(b)
+	}
 	for i, l := range lines {
 		var e auditevent.AuditEvent
 		if !strings.HasSuffix(l, "\n") || json.Unmarshal([]byte(l), &e) != nil || e.Type == "" {
@@ -167,7 +172,16 @@ func runScenario(sc scenario) (msg string, nlines int, nwrites int) {
 				return "two UserLogin events for pid " + pid, nlines, 0
 			}
 			loginAt[pid] = i + 1
+			loginIdentity[pid] = ident(&e)
 		case "UserAction":
+			// C01 at daemon level: the session (auditId) was opened by the LOGIN record of exactly this pid,
+			// and the event carries exactly that login's subjects, source and target
+			if n, err := strconv.Atoi(pid); err != nil || e.Metadata.AuditID != fmt.Sprint(100+n-20000) {
+				return fmt.Sprintf("output line %d: UserAction with auditId %s carries the identity of the login with pid %s, which did not open that session", i+1, e.Metadata.AuditID, pid), nlines, 0
+			}
+			if loginAt[pid] != 0 && ident(&e) != loginIdentity[pid] {
+				return fmt.Sprintf("output line %d: UserAction of session %s carries %s, its login's identity is %s", i+1, e.Metadata.AuditID, ident(&e), loginIdentity[pid]), nlines, 0
+			}
 			if loginAt[pid] == 0 {
 				return fmt.Sprintf("output line %d: UserAction of the login with pid %s appears before that login's UserLogin event", i+1, pid), nlines, 0
 			}
@@ -181,6 +195,9 @@ func runScenario(sc scenario) (msg string, nlines int, nwrites int) {
 		if a := actions[fmt.Sprint(20000+i)]; a != 3 {
 			return fmt.Sprintf("session of pid %d: %d UserAction events in the output, want 3 (none lost, none duplicated)", 20000+i, a), nlines, 0
 		}
+	}
+	if noTrace {
+		return "", nlines, 0
 	}
 	// --- write(2) level: the output is opened once with O_APPEND; each write carries one whole line and is complete
 	f, err := os.Open(d.strace)
@@ -243,6 +260,37 @@ func runScenario(sc scenario) (msg string, nlines int, nwrites int) {
 	}
 	return "", nlines, nwrites
 }
+
+// runC01daemon: C01 through the built daemon (no strace): many sessions in flight, both burst shapes.
+func runC01daemon(run *mc.Run) int {
+	scs := []scenario{{16, "alternating", "file"}, {16, "simultaneous", "file"}}
+	if run.Thorough() {
+		scs = append(scs, scenario{2, "alternating", "file"}, scenario{64, "simultaneous", "file"}, scenario{64, "alternating", "file"}, scenario{200, "simultaneous", "file"})
+	}
+	noTrace = true
+	defer func() { noTrace = false }()
+	var samples []any
+	lines, inconcl := 0, 0
+	for _, sc := range scs {
+		msg, nl, _ := runScenario(sc)
+		lines += nl
+		fmt.Printf("  %+v: lines=%d %s\n", sc, nl, msg)
+		samples = append(samples, map[string]any{"scenario": sc, "output_lines": nl})
+		if strings.HasPrefix(msg, "inconclusive") {
+			inconcl++
+			continue
+		}
+		if msg != "" {
+			run.Violation(fmt.Sprintf("C01:daemon:%s:%s", sc.Shape, strings.Join(strings.Fields(msg)[:3], "_")), sc, fmt.Sprintf("scenario %+v: %s", sc, msg))
+		}
+	}
+	cov := mc.Coverage{Level: "exploration", Evaluations: len(scs), Distinct: len(scs) - inconcl, Exhaustive: inconcl == 0, Samples: samples,
+		Rule:  "daemon level: N sessions (distinct pids, distinct identities) written to the two FIFOs of the built binary in two burst shapes; every UserAction line must carry the identity of the UserLogin whose pid opened its session (auditId), each login's UserLogin once, each session's 3 events once. OS schedules are not enumerated (order-independent oracle). distinct_nontrivial = conclusive scenarios",
+		Extra: map[string]any{"output_lines_checked": lines}}
+	return run.Finish(cov)
+}
+
+var noTrace bool
 
 func runC10c(run *mc.Run) int {
 	var scs []scenario
